@@ -661,6 +661,16 @@ def suite_c07(tier):
                          ("valid+valid+corrupt", lambda c: [nbv + nbv + c]),
                          ("valid|valid+corrupt|empty", lambda c: [nbv, nbv + c, b""])]
 
+                # the INTACT twin of the corrupted frame first, on the same receiver (a master polling with one
+                # request over and over): having just accepted these very header and trailer bytes must not
+                # open the gate for a copy whose body was hit
+                twin = [("twin|corrupt", lambda c: [p, c]), ("twin+corrupt", lambda c: [p + c]),
+                        ("twin|twin|corrupt+valid", lambda c: [p, p, c + nbv]), ("valid|twin+corrupt|valid", lambda c: [nbv, p + c, nbv])]
+
+                def emit_twin(c, label, every=False):
+                    for cn, mk in (twin if every else [twin[r.randrange(len(twin))]]):
+                        cases.append(c07_case(kind, client, units, mk(c), label + ":" + cn, [p, nb_[4]]))
+
                 def emit(c, label, every=False):
                     for cn, mk in (ctxs if every else [ctxs[r.randrange(len(ctxs))]]):
                         cases.append(c07_case(kind, client, units, mk(c), label + ":" + cn, [p, nb_[4]]))
@@ -690,6 +700,12 @@ def suite_c07(tier):
                         g = bytes(r.randrange(256) for _ in range(r.choice([1, 2, 5]))).replace(b"{", b"z")
                         cases.append(c07_case(kind, client, units, [g + p], "noise+valid", [p, nbv]))
                         cases.append(c07_case(kind, client, units, [g + flip(p, [r.randrange(8, nbits - 8)])], "noise+flip1", [p, nbv]))
+                for i in (range(nbits) if idx == 0 else r.sample(range(nbits), 8 if quick else 32)):
+                    emit_twin(flip(p, [i]), "tflip1", every=(idx == 0 and i % 4 == 0))
+                for _ in range(6 if quick else 40):
+                    emit_twin(flip(p, r.sample(range(nbits), 2)), "tflip2")
+                    i = r.randrange(len(p))
+                    emit_twin(p[:i] + bytes([p[i] ^ r.randrange(1, 256)]) + p[i + 1:], "tsubst")
                 emit_multi(p[:-1], "mtruncate")
                 emit_multi(p + bytes([r.randrange(256)]), "mextend")
                 # every single-bit flip
